@@ -1,5 +1,6 @@
 pub mod dump;
 pub mod engine;
 pub mod gen;
+pub mod model;
 pub mod props;
 pub mod pyworker;
